@@ -460,10 +460,22 @@ func ruleF12(c *an.Ctx) {
 				}
 				// only the decision "create or not": the false edge of the same test must create chunks
 				creates := false
+				isNewChunk := func(x ssa.Instruction) bool {
+					cl := an.AsCallAny(x)
+					return cl != nil && cl.Common().StaticCallee() != nil && cl.Common().StaticCallee().Name() == "NewChunk"
+				}
 				for _, o := range b.Succs {
 					if o != s && reachFromBlock(o, func(x ssa.Instruction) bool {
-						cl := an.AsCallAny(x)
-						return cl != nil && cl.Common().StaticCallee() != nil && cl.Common().StaticCallee().Name() == "NewChunk"
+						if isNewChunk(x) {
+							return true
+						}
+						// the creation loop may live in a helper shared with updateId (makeChunks)
+						if cl := an.AsCallAny(x); cl != nil {
+							if h := cl.Common().StaticCallee(); h != nil && h.Blocks != nil && h.Pkg == m.Pkg {
+								return an.MayDo(h, isNewChunk, 1)
+							}
+						}
+						return false
 					}) {
 						creates = true
 					}
@@ -1367,7 +1379,35 @@ func ruleP7(c *an.Ctx) {
 		return
 	}
 	n := 0
-	for _, m := range familyOf(p, fn, 1) {
+	// the values that stand for "all comments not attached yet": attachComments' own parameter, and
+	// the parameters of helpers that receive it
+	remaining := map[ssa.Value]bool{}
+	if len(fn.Params) > 0 {
+		remaining[fn.Params[0]] = true
+	}
+	fam := familyOf(p, fn, 1)
+	for _, m := range fam {
+		an.Instrs(m, func(in ssa.Instruction) {
+			cl := an.AsCallAny(in)
+			if cl == nil {
+				return
+			}
+			h := cl.Common().StaticCallee()
+			if h == nil || h.Blocks == nil {
+				return
+			}
+			for i, a := range cl.Common().Args {
+				v := an.Strip(a)
+				if sl, ok := v.(*ssa.Slice); ok {
+					v = sl.X
+				}
+				if remaining[v] && i < len(h.Params) {
+					remaining[h.Params[i]] = true
+				}
+			}
+		})
+	}
+	for _, m := range fam {
 		an.Instrs(m, func(in ssa.Instruction) {
 			ms, ok := in.(*ssa.MakeSlice)
 			if !ok {
@@ -1379,8 +1419,7 @@ func ruleP7(c *an.Ctx) {
 				if !isLen {
 					return false
 				}
-				_, isPrm := args[0].(*ssa.Parameter)
-				return isPrm
+				return remaining[args[0]]
 			}
 			c.Check("P7", "per-node-buffer-not-sized-for-the-remaining-input@"+an.FnName(m), in.Pos(), !prop(ms.Len) && !prop(ms.Cap),
 				"a function that runs once per syntax node allocates a slice sized by the number of comments still unattached: N declarations followed by N comment lines cost N*N time and memory (parsing out of proportion to the input size)")
@@ -1817,6 +1856,40 @@ func ruleI8(c *an.Ctx) {
 		return (isByte(r.X) && an.IsIntConst(r.Y, '/')) || (isByte(r.Y) && an.IsIntConst(r.X, '/'))
 	}
 	n := 0
+	// the cut may be made by a helper of the package that returns (tail, ok): its own returns of a
+	// tail are then the sites, guarded inside the helper
+	an.Instrs(fn, func(in ssa.Instruction) {
+		ret, ok := in.(*ssa.Return)
+		if !ok || len(ret.Results) == 0 {
+			return
+		}
+		ex, ok := an.RetVal(ret, 0).(*ssa.Extract)
+		if !ok {
+			return
+		}
+		cl, ok := ex.Tuple.(*ssa.Call)
+		if !ok {
+			return
+		}
+		h := cl.Call.StaticCallee()
+		if h == nil || h.Blocks == nil || h.Pkg != fn.Pkg {
+			return
+		}
+		an.Instrs(h, func(hin ssa.Instruction) {
+			hret, ok := hin.(*ssa.Return)
+			if !ok || ex.Index >= len(hret.Results) || !isTail(hret.Results[ex.Index]) {
+				return
+			}
+			n++
+			g, w := an.GuardedBy(hret, sepTest)
+			if !g {
+				// or the caller established it before calling
+				g, _ = an.GuardedBy(cl, sepTest)
+			}
+			c.Check("I8", "path-prefix-ends-at-a-separator@"+an.FnName(h), hret.Pos(), g,
+				"a helper of IncludeFilePath hands back the tail of a path cut at the length of an MROPATH entry without a separator test (in the helper or before its call): /x/mro also 'contains' /x/mro_ext/...; "+c.WitnessString(w))
+		})
+	})
 	an.Instrs(fn, func(in ssa.Instruction) {
 		ret, ok := in.(*ssa.Return)
 		if !ok || len(ret.Results) == 0 || !isTail(an.RetVal(ret, 0)) {
@@ -1845,12 +1918,57 @@ func ruleH4(c *an.Ctx) {
 		return
 	}
 	n := 0
+	// work list: a function and the values in it that ARE the assembled script (results of jobScript,
+	// or the parameter of a helper that was handed the script unchanged)
+	type item struct {
+		fn   *ssa.Function
+		srcs map[ssa.Value]bool
+	}
+	var work []item
 	for _, fn := range p.FuncsOf(pkgCore) {
 		calls := callsTo(fn, js)
 		if len(calls) == 0 {
 			continue
 		}
-		// sinks: WriteRaw("jobscript", x) and NewReader(x) feeding Stdin
+		srcs := map[ssa.Value]bool{}
+		for _, cs := range calls {
+			srcs[cs.Value()] = true
+		}
+		work = append(work, item{fn, srcs})
+	}
+	seenFn := map[*ssa.Function]bool{}
+	for len(work) > 0 {
+		it := work[0]
+		work = work[1:]
+		if seenFn[it.fn] {
+			continue
+		}
+		seenFn[it.fn] = true
+		fn := it.fn
+		derivedFrom := func(v ssa.Value) bool {
+			seen := map[ssa.Value]bool{}
+			found := false
+			var rec func(v ssa.Value, d int)
+			rec = func(v ssa.Value, d int) {
+				if v == nil || seen[v] || d > 8 || found {
+					return
+				}
+				seen[v] = true
+				if it.srcs[v] {
+					found = true
+					return
+				}
+				if in2, ok := v.(ssa.Instruction); ok {
+					for _, op := range in2.Operands(nil) {
+						if op != nil && *op != nil {
+							rec(*op, d+1)
+						}
+					}
+				}
+			}
+			rec(v, 0)
+			return found
+		}
 		an.Instrs(fn, func(in ssa.Instruction) {
 			cl := an.AsCallAny(in)
 			if cl == nil || cl.Common().StaticCallee() == nil {
@@ -1865,42 +1983,23 @@ func ruleH4(c *an.Ctx) {
 			case f.Name() == "NewReader" && f.Pkg != nil && (f.Pkg.Pkg.Path() == "strings" || f.Pkg.Pkg.Path() == "bytes") && len(cl.Common().Args) == 1:
 				arg, what = cl.Common().Args[0], "the submit command's input"
 			default:
+				// the script handed on, unchanged, to a helper of the package
+				if f.Blocks != nil && f.Pkg == fn.Pkg && f != js {
+					hs := map[ssa.Value]bool{}
+					for i, a := range cl.Common().Args {
+						if it.srcs[an.Strip(a)] && i < len(f.Params) {
+							hs[f.Params[i]] = true
+						}
+					}
+					if len(hs) > 0 {
+						work = append(work, item{f, hs})
+					}
+				}
 				return
 			}
-			// is the argument the jobScript result, and untouched?
 			v := an.Strip(arg)
-			direct := false
-			for _, cs := range calls {
-				if v == cs.Value() {
-					direct = true
-				}
-			}
-			derived := false
-			if !direct {
-				seen := map[ssa.Value]bool{}
-				var rec func(v ssa.Value, d int)
-				rec = func(v ssa.Value, d int) {
-					if v == nil || seen[v] || d > 8 || derived {
-						return
-					}
-					seen[v] = true
-					for _, cs := range calls {
-						if v == cs.Value() {
-							derived = true
-							return
-						}
-					}
-					if in2, ok := v.(ssa.Instruction); ok {
-						for _, op := range in2.Operands(nil) {
-							if op != nil && *op != nil {
-								rec(*op, d+1)
-							}
-						}
-					}
-				}
-				rec(v, 0)
-			}
-			if !direct && !derived {
+			direct := it.srcs[v]
+			if !direct && !derivedFrom(v) {
 				return
 			}
 			n++
